@@ -21,12 +21,15 @@ pub assume_specification [ide::analysis::Analysis::references] (_0: &ide::analys
 #[verifier::external_type_specification] #[verifier::external_body] pub struct ExDiagnostic(async_lsp::lsp_types::Diagnostic);
 #[verifier::external_type_specification] #[verifier::external_body] pub struct ExSymbolInformation(async_lsp::lsp_types::SymbolInformation);
 #[verifier::external_type_specification] #[verifier::external_body] pub struct ExClientSocket(async_lsp::ClientSocket);
-pub assume_specification<'a, 'b> [<crate::vfs::Vfs as ide::file_system::FileSystem>::path_for_file] (_0: &'a crate::vfs::Vfs, _1: &'b ide::file_system::FileId) -> &'a ide::file_system::FilePath;
 #[verifier::external_type_specification] #[verifier::external_body] pub struct ExUrl(async_lsp::lsp_types::Url);
 pub assume_specification [<async_lsp::lsp_types::Url as crate::vfs::UrlExt>::from_file_path] (_0: &ide::file_system::FilePath) -> async_lsp::lsp_types::Url;
 #[verifier::external_type_specification] #[verifier::external_body] pub struct ExPublishDiagnosticsParams(async_lsp::lsp_types::PublishDiagnosticsParams);
 pub assume_specification [async_lsp::lsp_types::PublishDiagnosticsParams::new] (_0: async_lsp::lsp_types::Url, _1: std::vec::Vec<async_lsp::lsp_types::Diagnostic>, _2: std::option::Option<i32>) -> async_lsp::lsp_types::PublishDiagnosticsParams;
 #[verifier::external_type_specification] #[verifier::external_body] pub struct ExError(async_lsp::Error);
+#[verifier::reject_recursive_types(T)] #[verifier::external_type_specification] #[verifier::external_body] pub struct ExRwLockWriteGuard<'rwlock, T>(std::sync::RwLockWriteGuard<'rwlock, T>) where T: std::marker::MetaSized + ?Sized + 'rwlock;
+pub assume_specification [<async_lsp::lsp_types::Url as crate::vfs::UrlExt>::to_file_path] (_0: &async_lsp::lsp_types::Url) -> ide::file_system::FilePath;
+pub assume_specification [ide::analysis::AnalysisHost::set_file_content] (_0: &mut ide::analysis::AnalysisHost, _1: ide::file_system::FileId, _2: std::sync::Arc<str>);
+pub assume_specification<FS> [ide::analysis::AnalysisHost::set_root_file] (_0: &mut ide::analysis::AnalysisHost, _1: &mut FS, _2: ide::file_system::FileId) where FS: ide::file_system::FileSystem,;
 // HARVEST-END
 }
 }
